@@ -7,6 +7,7 @@ CONSTANTS
   Unwrapped = {}
   DepthRestore = "nobound"
   ContextDropped = FALSE
+  CloseFailure = "logged"
 INIT Init
 NEXT Next
 INVARIANTS
